@@ -191,6 +191,27 @@ def events(tree, inputs, limit=64):
         if t > 0:        # the rest consumes one input event, the pattern starts with the next one
             return [rest_event(t, inputs[0])] + events(tree[2], inputs[1:], limit)
         return events(tree[2], inputs, limit)
+    if k == 'durq':
+        import math as _m
+        total, tol, quant = q(tree[1]), q(tree[2]), (None if tree[3] is None else q(tree[3]))
+        out, elapsed = [], Fr(0)
+        for e in events(tree[4], inputs, limit):
+            d = ev_delta(e)
+            ne = elapsed + d
+            reached = (ne >= total) if tol == 0 else (_m.ceil(ne / tol) * tol >= total)
+            if reached:
+                e = dict(e); e['delta'] = ['F', str(total - elapsed)]; e['_cut'] = True
+                out.append(e)
+                return out
+            elapsed = ne
+            out.append(e)
+        if quant is not None and quant > 0:
+            pad = _m.ceil(elapsed / quant) * quant - elapsed      # up to the next multiple of quant
+            if pad > 0:
+                r = rest_event(pad, inputs[min(len(out), len(inputs) - 1)])
+                r['delta'] = ['F', str(pad)]
+                out.append(r)
+        return out
     if k == 'dur':
         total = q(tree[1])
         out, elapsed = [], Fr(0)
@@ -313,6 +334,7 @@ def midicps_points(tree, proto):
         elif t[0] in ('chain', 'par', 'seq'):
             for c in t[1]: walk(c)
         elif t[0] == 'pn': walk(t[1])
+        elif t[0] == 'durq': walk(t[4])
         else: walk(t[2])
     walk(tree)
     vals_of([[k, ['rep', v]] for k, v in proto.items()])
